@@ -1,2 +1,37 @@
-/- stub: line-protocol driver for C17 (to be written) -/
-def main : IO Unit := pure ()
+/- Line-protocol driver for the FeatureChecker model (property C17).
+   in : `D <abstract document S-expression>`  (as printed by harness/c17.cpp)   |   `EXC`   |   `ALL`
+   out: `V <sym> <sto> <con> T <throws> S <specSym> <specSto> <specCon> K <shape keys present, comma separated>`
+        `EXC <keys of the computed exception set of the current configuration>` / `ALL <all shape keys>` -/
+import UtapModel.Drv.FeatureSexp
+open UtapModel UtapModel.Feature UtapModel.Sexp
+
+def b01 (b : Bool) : String := if b then "1" else "0"
+
+def dedup (xs : List String) : List String := xs.foldl (fun acc x => if acc.contains x then acc else acc ++ [x]) []
+
+def stepLine (line : String) : String :=
+  let l := line.trimAscii.toString
+  if l == "EXC" then "EXC " ++ ",".intercalate ((exceptions Cfg.current).map Shape.key)
+  else if l == "ALL" then "ALL " ++ ",".intercalate (allShapes.map Shape.key)
+  else if l.startsWith "D " then
+    match parse (l.drop 2).toString with
+    | some [sx] =>
+      match decodeDoc sx with
+      | some m =>
+        let v := reported Cfg.current m
+        let keys := dedup ((shapesOf m).map Shape.key)
+        let und := dedup (((shapesOf m).filter (fun s => !detects Cfg.current s)).map Shape.key)
+        s!"V {b01 v.symbolic} {b01 v.stochastic} {b01 v.concrete} T {b01 (throws Cfg.current m)} S {b01 (decide (SpecSymbolic m))} {b01 (decide (SpecStochastic m))} {b01 (decide (SpecConcrete m))} K {",".intercalate keys} U {",".intercalate und}"
+      | none => "bad-doc"
+    | _ => "bad-sexp"
+  else "bad-op"
+
+partial def loop (h : IO.FS.Stream) (out : IO.FS.Stream) : IO Unit := do
+  let line ← h.getLine
+  if line.isEmpty then return ()
+  out.putStrLn (stepLine line)
+  loop h out
+
+def main : IO Unit := do
+  let out ← IO.getStdout
+  loop (← IO.getStdin) out
